@@ -379,43 +379,49 @@ META = {
 
 
 # ------------------------------------------------------------------ C10.image: every row `ls` prints in a whole image is addressable, nothing else is
-def h_image(fmt: int, n: int, i0: int, i1: int, i2: int, i3: int) -> int:
+def h_image(fmt: int, n: int, i0: int, i1: int, i2: int, i3: int, pp: int = 0) -> int:
     """
-    pre: 0 <= fmt <= 1 and 2 <= n <= 4 and 0 <= i0 <= 27 and 0 <= i1 <= 27 and 0 <= i2 <= 27 and 0 <= i3 <= 27
+    pre: 0 <= fmt <= 2 and 2 <= n <= 4 and 0 <= i0 <= 27 and 0 <= i1 <= 27 and 0 <= i2 <= 27 and 0 <= i3 <= 27 and 0 <= pp <= 1
     post: _ == 1
     """
     CNT[0] += 1
     from vf.util import conc, untraced
-    fmt, n = conc(fmt, 0, 1), conc(n, 2, 4)
+    fmt, n, pp = conc(fmt, 0, 2), conc(n, 2, 4), conc(pp, 0, 1)
     idx = [conc(i, 0, 27) for i in (i0, i1, i2, i3)[:n]]
     with untraced():
         from vf import nameimg as N
         from vf.props import c16
-        table = N.AKAI_NAMES if fmt == 0 else N.ROLAND_NAMES
+        table = (N.AKAI_NAMES, N.ROLAND_NAMES, N.CDDA_TITLES)[fmt]
         if any(i >= len(table) for i in idx):
             return 1
         names = [table[i] for i in idx]
-        img, d, _prefix = N.build(fmt, names)
+        if pp == 1 and fmt != 1:
+            return 1
+        # Roland: the performance lists its programs next to the samples they play; pp == 1 names the program like the LAST sample
+        img, d, _prefix = N.build(fmt, names, patch_name=names[-1]) if pp == 1 else N.build(fmt, names)
         image = N.open_image(img)
         rows = N.listing_names(c16._do(image, ("ls", d))[1])
         shown = [nm for nm, _t in rows]
         if len(set(shown)) != len(shown):
             return 0                                     # sibling names pairwise distinct
-        if len([1 for _nm, t in rows if "Sample" in t]) != n:
-            return 0                                     # every sample of the directory is listed
+        leaf = "Track" if fmt == 2 else "Sample"
+        if len([1 for _nm, t in rows if leaf in t]) != n:
+            return 0                                     # every sample / track of the directory is listed
+        sep = "/" if d else ""
+        D = d + sep
         reached = []
         for nm, typ in rows:
             if not nm.strip():
                 continue                                 # a blank printed name is exempt
-            for variant in (d + "/" + nm, "  " + d + "/" + nm + " ", d + "/" + nm + "/", d.replace("/", "\\") + "\\" + nm, d + " / " + nm):
+            for vi, variant in enumerate((D + nm, "  " + D + nm + " ", D + nm + "/", D.replace("/", "\\") + nm, (d + " / " + nm) if d else (" " + nm + " / "))):
                 text = c16._do(image, ("ls", variant))[1]
                 if "was not found" in text or not text.split("\n")[0].startswith(nm):
                     return 0                             # the printed name does not resolve / resolves to something shown under another name
-                if "Sample" in typ:
+                if leaf in typ:
                     who = N.item_of_info(fmt, text, n)
                     if who is None:
                         return 0
-                    if variant == d + "/" + nm:
+                    if vi == 0:
                         reached.append(who)
                     elif who != reached[-1]:
                         return 0                         # spelling variants of one path reach different items
@@ -426,13 +432,13 @@ def h_image(fmt: int, n: int, i0: int, i1: int, i2: int, i3: int) -> int:
         low = {x.strip().lower() for x in shown}
         last = shown[-1]
         for tail in ("nope", last + "x", "x" + last, last[:-1] if len(last) > 1 else "q", last + "/deeper", "\u00e9\u4e2d", last + "\x00", "(" + last + ")"):
-            text = c16._do(image, ("ls", d + "/" + tail))[1]
+            text = c16._do(image, ("ls", D + tail))[1]
             first = tail.split("/")[0].strip().lower()
             if first in low and "/" not in tail:
                 continue                                 # the corruption is another sibling's printed name (blanks / case are not significant)
             if "was not found" not in text:
                 return 0
-        for other in (d + "x", "x" + d, "\u00e9\u4e2d", "Q:/" + d):
+        for other in ((d + "x", "x" + d, "\u00e9\u4e2d", "Q:/" + d) if d else ("\u00e9\u4e2d", "Q:/zz")):
             if "was not found" not in c16._do(image, ("ls", other))[1]:
                 return 0
     return 1
@@ -458,6 +464,6 @@ def obligations(tier, seed):
                         sym="entry counts per level, value width", bound="<= 3 entries per level, depth <= 3", stubs=[]))
     obs.append(dict(name="C10.action", module="vf.props.c10", func="h_action", extra_pre=[], timeout=60, runs=RUNS, sym="found / not found", bound="both", stubs=["stub image"]))
     from vf.props import c06 as _c06
-    for o in _c06.image_obligations("C10.image", "vf.props.c10", tier, dup=True):
+    for o in _c06.image_obligations("C10.image", "vf.props.c10", tier, dup=True, cdda=True):
         obs.append(o)
     return obs
